@@ -1474,6 +1474,41 @@ def d26_scalar_printed_with_line_breaks_marked(chk: Check) -> None:
             chk.ok("C16-D26", fi, c, text, "line breaks only")
 
 
+def d28_json_output_is_ascii_safe(chk: Check, funcs) -> None:
+    """The tools load JSON through the YAML parser, which decodes every
+    `\\uXXXX` escape on its own: a character outside the BMP written as a
+    surrogate pair arrives as two lone surrogates.  json.dump's default
+    (ensure_ascii) writes them back as escapes, so the data survive.  With
+    `ensure_ascii=False` the text layer must encode them and raises
+    UnicodeEncodeError -- after the target was truncated: the file is left
+    half-written and the tool exits non-zero on data it read without
+    complaint."""
+    chk.rule("C16-D28", "no JSON writer of the tools switches ensure_ascii "
+             "off", floor=6)
+    n = 0
+    for fi in funcs:
+        for c in walk_local(fi.node):
+            if not (isinstance(c, ast.Call) and
+                    src(c.func) in ("json.dump", "json.dumps")):
+                continue
+            n += 1
+            off = [k for k in c.keywords if k.arg == "ensure_ascii" and not (
+                isinstance(k.value, ast.Constant) and k.value.value is True)]
+            star = [k for k in c.keywords if k.arg is None]
+            text = "{}: {}".format(fi.short, src(c)[:60])
+            if off or star:
+                chk.fail("C16-D28", fi, c, text,
+                         "the JSON text is written unescaped: lone "
+                         "surrogates (how this tool chain itself holds "
+                         "emoji read from JSON) cannot be encoded, the "
+                         "write dies half-way through the already "
+                         "truncated file")
+            else:
+                chk.ok("C16-D28", fi, c, text, "ASCII-safe escapes")
+    if n < 6:
+        raise AnalysisError("JSON writers of the tools: {}".format(n))
+
+
 def d27_status_functions_return_on_every_path(chk: Check,
                                               funcs: List[FuncInfo]) -> None:
     """A helper whose result is an exit status returns one on *every*
@@ -1600,6 +1635,7 @@ def run(chk: Check) -> None:
     d25_every_load_stage_is_trapped(chk)
     d26_scalar_printed_with_line_breaks_marked(chk)
     d27_status_functions_return_on_every_path(chk, funcs)
+    d28_json_output_is_ascii_safe(chk, funcs)
     from rules.shared import shared_state_rule
     shared_state_rule(chk, "C16-D12", sorted({f.module.relpath
                                           for f in funcs}), 40)
